@@ -540,7 +540,8 @@ PROPS = {
                   lambda prog, tier: exact.run(prog, {"CERT": {"roots": ["QSexact_print_sol"], "closure": False}, "TESTS": {"roots": ["QSexact_print_sol"], "closure": True}}),
                   lambda prog, tier: idxclass.run(prog, scope_units=("qsopt_ex/exact.c",), rule="R-IDXCLASS"),
                   lambda prog, tier: buf.run(prog, scope_units=("esolver/",), floor=2),
-                  lambda prog, tier: fmt.run(prog, scope=lambda f: f.unit.startswith("esolver/") or f.unit.endswith("qsopt_ex/exact.c"), floor=40)],
+                  lambda prog, tier: fmt.run(prog, scope=lambda f: f.unit.startswith("esolver/") or f.unit.endswith("qsopt_ex/exact.c"), floor=40),
+                  lambda prog, tier: pair.run(prog, heap=True, units=("esolver/",), floors=(1, 3))],
         "technique": "path-sensitive typestate dataflow over main's CFG for the exit status (error recorded => non-zero return); "
                      "NULL-test dominance for file handles; table agreement between status constants and the words written; sibling "
                      "agreement of the four non-zero filters of QSexact_print_sol; lossy-conversion sink census; index-space typing; "
